@@ -4,7 +4,7 @@ SPEC = {
     "props_module": "C12",
     "model_vo": "theories/C12/Model.vo",
     "bin": "c12",
-    "n": {"quick": 12, "thorough": 500},
+    "n": {"quick": 40, "thorough": 500},
     "rule": "engine c12: n worlds = (random corpus of 6..66 documents: keyword tag (single) / cats (multi), i64 n (single) / ms "
             "(multi, duplicates allowed), f64 price, all values integer or half valued; ~12% deleted documents; ~12% updated "
             "documents whose first version has other content; match_all with an optional root filter evaluated by the harness; "
